@@ -681,6 +681,11 @@ func runC03(rc *runCfg, pl *plan, m *merged) error {
 			m.absorb(rc, st, outs)
 		}
 	}
+	if os.Getenv("VERIF_C03_SOURCE_ONLY") != "" && rc.replayMode != "machine-trace" {
+		// development aid for mutation sweeps; the registered commands never set it
+		m.addInconclusive("machine-level stage skipped on request (VERIF_C03_SOURCE_ONLY)")
+		return nil
+	}
 	if rc.only < 0 || rc.replayMode == "machine-trace" {
 		save := rc.only
 		rc.only = -1
